@@ -258,6 +258,8 @@ def real_detectors(ctx):
         dets = [("PELT", lambda: PELT(), 2), ("MovingWindow", lambda: MovingWindow(bandwidth=4), 2),
                 ("SeededBinarySegmentation", lambda: SeededBinarySegmentation(), 2),
                 ("CAPA", lambda: CAPA(), 2), ("MVCAPA", lambda: MVCAPA(), 2),
+                # the other mode: point anomalies dropped -- several collective anomalies must still come out in time order
+                ("CAPA(ignore_point_anomalies)", lambda: CAPA(ignore_point_anomalies=True), 2), ("MVCAPA(ignore_point_anomalies)", lambda: MVCAPA(ignore_point_anomalies=True), 2),
                 ("CircularBinarySegmentation", lambda: CircularBinarySegmentation(), 2),
                 ("StatThresholdAnomaliser", lambda: StatThresholdAnomaliser(PELT(), stat_lower=-2.0, stat_upper=2.0), 1),
                 # configurations under which NOTHING is detected: the dense output must still have the detector's own format
